@@ -160,7 +160,8 @@ def share_class(p):
         kind = p.split(" ")[0]
         nested = "[" in p
         return f"{kind}-{'annotation' if '.annotation' in p else 'notes'}" + ("-nested-list" if nested else "-dict")
-    return p.split(" ")[0] + ("-" + p.split(" ")[1] if p.startswith("solver") else "")
+    parts = p.split(" ")
+    return parts[0] + ("-" + parts[1] if p.startswith("solver") and len(parts) > 1 else "")
 
 
 def run_case(base, case, acc):
